@@ -1,6 +1,12 @@
 package main
 
-import "math/big"
+import (
+	"math/big"
+	"regexp"
+	"strings"
+)
+
+var hexTokenSuffix = regexp.MustCompile(`hex#\d+#$`)
 
 // strings.Trim / TrimLeft / TrimRight on strings of symbolic bytes: the library
 // implementation uses a bit set (shifts by a symbolic amount), which the
@@ -15,6 +21,28 @@ func init() {
 		reg(name, func(m *Machine, g *Goroutine, c *callCtx) (Value, stepStatus) {
 			s, _ := c.args[0].(StrVal)
 			cut, _ := c.args[1].(StrVal)
+			if s.sym == nil && s.concrete() && cut.concrete() && m.cryptoOn() {
+				// a hex-encoded blob of the crypto model (token "hex#k#") at the boundary being trimmed: its
+				// first (last) digit is an arbitrary hex digit, so a cutset holding hex digits may eat into
+				// the encoded bytes themselves - explored as a choice; what is left no longer decodes
+				hexDigit := strings.ContainsAny(cut.s, "0123456789abcdef")
+				rest := s.s
+				if left {
+					rest = strings.TrimLeft(rest, cut.s)
+				}
+				if right {
+					rest = strings.TrimRight(rest, cut.s)
+				}
+				atLeft := left && strings.HasPrefix(rest, "hex#")
+				atRight := right && hexTokenSuffix.MatchString(rest)
+				if hexDigit && (atLeft || atRight) {
+					eat := mkVar(m.uniqueName("cutset-eats-encoded-digits"), SBool, nil, nil)
+					m.declare(eat)
+					if m.branch(eat) {
+						return StrVal{s: "f"}, stNext // (an odd number of digits, or too few bytes: not the encoding any more)
+					}
+				}
+			}
 			if s.sym == nil || !cut.concrete() {
 				return prev(m, g, c)
 			}
